@@ -1,3 +1,44 @@
-(* placeholder, replaced by the real theorems *)
-Theorem placeholder_C07 : True. Proof. exact I. Qed.
-Print Assumptions placeholder_C07.
+(* C07 — Passage parameters bind like Python calls, are local, and never leak or linger.
+   Theorems (proofs: Proofs/EngineNav.v, Proofs/EngineUndo.v, Proofs/EngineParams.v): for every story and
+   every author-code oracle. *)
+From Coq Require Import String List Bool ZArith Arith.
+From Bardic Require Import PyStr Value Compiled Engine EngineBase EngineNav EngineUndo EngineParams.
+Import ListNotations.
+
+(* the parameter scope ends when the navigation completes OR fails: the scope stack after any operation is
+   the scope stack before it (this is the `finally`), for choose, goto, undo and redo *)
+Theorem scope_balanced_choose : forall orc ctxkeys st e i,
+  escopes (fst (choose orc ctxkeys st e i)) = escopes e.
+Proof. exact choose_scopes. Qed.
+Print Assumptions scope_balanced_choose.
+Theorem scope_balanced_goto : forall orc ctxkeys st e spec,
+  escopes (fst (goto_op orc ctxkeys st e spec)) = escopes e.
+Proof. exact goto_op_scopes. Qed.
+Print Assumptions scope_balanced_goto.
+Theorem scope_balanced_undo_redo : forall e,
+  escopes (fst (undo e)) = escopes e /\ escopes (fst (redo e)) = escopes e.
+Proof. intros e. split; [apply undo_scopes|apply redo_scopes]. Qed.
+Print Assumptions scope_balanced_undo_redo.
+
+(* parameters never appear in or alter the global variables: what a statement or block writes back
+   skips every parameter name, so a global with a parameter's name keeps its value and a parameter
+   that is not a global does not become one *)
+Theorem params_stay_local : forall ctxkeys ctx' v skip k,
+  str_in k skip = true -> lookup k (sync_back ctxkeys ctx' v skip) = lookup k v.
+Proof. exact sync_back_skips. Qed.
+Print Assumptions params_stay_local.
+
+(* ... and they shadow same-named globals in everything the passage evaluates *)
+Theorem params_shadow_globals : forall v l sc k x,
+  NoDup (keys l) -> lookup k l = Some x -> lookup k (eval_context v (l :: sc)) = Some x.
+Proof. exact eval_context_local. Qed.
+Print Assumptions params_shadow_globals.
+
+(* binding follows Python's call rule (py_bind, Proofs/EngineParams.v): parameter number i takes positional
+   argument i when there is one, else the keyword argument of its name, else its default evaluated with the
+   earlier parameters visible, else ValueError.  positional_prefix: the positional arguments are arg_0..arg_{k-1},
+   which is how _parse_directive_args numbers them. *)
+Theorem bind_is_python_call : forall orc ctx0 ps ad k,
+  positional_prefix ad k -> bind_arguments orc ctx0 ps ad 0 [] = py_bind orc ctx0 ps ad.
+Proof. exact bind_arguments_spec. Qed.
+Print Assumptions bind_is_python_call.
